@@ -24,7 +24,7 @@ def run(run, replay=None):
     rng = random.Random(run.seed)
     _wcommon.mc_writer(run, ['Canonical', 'RoundTrip', 'IdsLegal'], ['AppendOnly'])
     cat = Catalog()
-    seqs = _wcommon.writer_sequences(run, rng)
+    seqs = _wcommon.writer_sequences(run, rng, long_quick=True)
     traces = _wcommon.execute(run, seqs, cat, CHK)
     can = run.tolerant(lambda: writer_canaries(traces, rng, want=('bytes',)))
     run.judge('Trace_WriteRead', traces + can, cat.tables(), canary_ids=[c['id'] for c in can],
